@@ -471,6 +471,37 @@ func c01Clone(c *Ctx, a *avlAnchors) {
 				if cb.Op == "closure" && cb.Sym == "Add$bound" && len(cb.Args) == 1 && cb.Args[0].Op == "alloc" {
 					walked = true
 					local = cb.Args[0]
+				} else if cb.Op == "closure" {
+					// a closure whose only effect is localTree.Add(value)
+					good := false
+					for j := range p.Events {
+						if p.Events[j].Kind == "mkclosure" && p.Events[j].Val.Key() == cb.Key() {
+							cp := c.An.ClosurePaths(&p.Events[j])
+							if cp.Unproven == "" && len(cp.Paths) == 1 {
+								q := cp.Paths[0]
+								var calls []*Event
+								others := 0
+								for k := range q.Events {
+									f := &q.Events[k]
+									if f.Kind == "call" {
+										calls = append(calls, f)
+									} else if f.Kind == "store" && f.Addr.Op != "alloc" {
+										others++
+									}
+								}
+								val := &Term{Op: "param", N: 0, Fn: p.Events[j].SSAFn}
+								if len(calls) == 1 && others == 0 && calls[0].Name == "avl.(*Tree).Add" && calls[0].Args[0].Op == "alloc" && calls[0].Args[1].Key() == val.Key() {
+									good = true
+									local = calls[0].Args[0]
+								}
+							}
+						}
+					}
+					if good {
+						walked = true
+					} else {
+						ok, why = false, "the walk does not feed the clone's Add"
+					}
 				} else {
 					ok, why = false, "the walk does not feed the clone's Add"
 				}
@@ -623,6 +654,10 @@ func c01Descent(c *Ctx, a *avlAnchors) {
 	if ref != nil && !agree {
 		o := R.Refuted(rule, "avl.(*node)", "sibling-agreement", "", "add, find and remove do not descend the same way: values are inserted where lookups/removals do not search")
 		o.Breaks = "Contains/Remove miss values that are present"
+	} else if ref != nil && len(results) == 3 && results["avl.(*node).add"].below != "" && results["avl.(*node).find"].below != "" && results["avl.(*node).remove"].below != "" {
+		R.Held(rule, "avl.(*node)", "sibling-agreement", "", "add, find and remove descend the same way")
+	} else {
+		R.Unproven(rule, "avl.(*node)", "sibling-agreement", "", "the descent of add, find and remove could not all be read")
 	}
 	// paths without a comparator decision must not go the wrong way when the other child exists:
 	// find/remove go right only when left == nil or not-below (checked above by sign); nothing more to do.
